@@ -3,7 +3,7 @@ CONSTANTS
   Progs <- ProgsQuick
   Inits <- InitsQuick
   M = 8
-INVARIANTS TypeOK Bounded PopNonEmpty PopValue FalseLegit LenRange QuiescentExact Progress
+INVARIANTS TypeOK Bounded PopNonEmpty PopValue FalseLegit LenRange QuiescentExact TicketInv SlotExclusion Progress
 VIEW View
 CHECK_DEADLOCK FALSE
 ACTION_CONSTRAINT Emit
